@@ -740,6 +740,9 @@ func (env *SpecEnv) call(n *ast.CallExpr) SV {
 	if r, ok := env.btreeSpec(name, n); ok {
 		return r
 	}
+	if r, ok := env.jsonSpec(name, n); ok {
+		return r
+	}
 	if sf, ok := env.cs.Specs[name]; ok {
 		var args []SV
 		for _, a := range n.Args {
@@ -774,11 +777,13 @@ func (env *SpecEnv) call(n *ast.CallExpr) SV {
 				}
 				key += fmt.Sprintf(" %d", l.id)
 			}
-			if !bound && !env.e.unfolded[key] {
+			if !bound && (env.e.goalCtx > 0 || !env.e.unfolded[key]) {
 				if env.e.unfolded == nil {
 					env.e.unfolded = map[string]bool{}
 				}
-				env.e.unfolded[key] = true
+				if env.e.goalCtx == 0 {
+					env.e.unfolded[key] = true // goal-directed unfoldings are local to their obligation: never memoised
+				}
 				sub := env
 				for i, p := range sf.Params {
 					sub = sub.with(p, args[i])
